@@ -46,6 +46,7 @@ def default_cfg():
         "hash_seed": 0,
         "clock": "mono",
         "neg_source_rs": False,
+        "zero_params": 0.0,
     }
 
 
@@ -87,6 +88,8 @@ class Gen:
         return self.r.pick(E6) * 10.0 ** self.r.randint(lo_dec, hi_dec)
 
     def neg(self, x):
+        if self.cfg.get("zero_params") and self.r.chance(self.cfg["zero_params"]):
+            return 0.0  # legal: zero-ohm link, zero quiescent current, ...
         if self.cfg["neg_params"] and self.r.chance(self.cfg["neg_params"]):
             return -x
         return x
@@ -106,8 +109,8 @@ class Gen:
 
         if self.r.chance(0.5):
             return {"vi": [round(abs(vnom), 3)], "io": ios, key: [row()]}
-        nvi = self.r.randint(2, 3)
-        vis = sorted(set(round(abs(vnom) * f, 3) for f in self.r.sample([0.5, 0.8, 1.0, 1.2, 2.0], nvi)))
+        nvi = self.r.randint(2, 4)
+        vis = sorted(set(round(abs(vnom) * f, 3) for f in self.r.sample([0.3, 0.5, 0.8, 0.9, 1.1, 1.2, 2.0], nvi)))
         if len(vis) < 2:
             vis = [round(abs(vnom) * 0.5, 3), round(abs(vnom) * 1.5, 3)]
         if self.r.chance(self.cfg["tables2d_general"]):
@@ -237,7 +240,7 @@ class Gen:
             if self.r.chance(0.4):
                 p["iis"] = self.neg(self.eng(-4, -3) * si)
         elif kind == "RLoad":
-            p["rs"] = self.neg(round(a / (self.eng(-3, -2) * si), 3))
+            p["rs"] = round(a / (self.eng(-3, -2) * si), 3) * (-1 if (self.cfg["neg_params"] and self.r.chance(self.cfg["neg_params"])) else 1)
         elif kind == "RLoss":
             p["rs"] = self.neg(self.r.pick([0.01, 0.05, 0.1, 0.33, 1.0, 2.2]) / (si if si < 1 else 1.0) * (1.0 if not self.cfg["micro"] else 1e-3))
         elif kind == "VLoss":
